@@ -246,6 +246,10 @@ func absSchemaToOpenAPI(a any) map[string]any {
 			out[f] = x
 		case "disc":
 			out["discriminator"] = map[string]any{"propertyName": x}
+		case "discref":
+			// oneOf over a component reference, the discriminator's mapping designates it for the value "k"
+			out["oneOf"] = []any{map[string]any{"$ref": "#/components/schemas/D"}}
+			out["discriminator"] = map[string]any{"propertyName": x, "mapping": map[string]any{"k": "#/components/schemas/D"}}
 		case "discmap":
 			out["discriminator"] = map[string]any{"propertyName": x, "mapping": map[string]any{"k": "#/components/schemas/S"}}
 		case "apFalse":
